@@ -407,7 +407,7 @@ def subgrid(ts, dt, n):
     return np.asarray(ts)[:, None] + np.arange(n)[None, :] * (dt / n)
 
 
-def reference(stg, ax, sig, opts, ts_eval=None, cache=None):
+def reference(stg, ax, sig, opts, ts_eval=None, cache=None, ax_fn=None):
     """
     Expected signal on the full band of ax. ts_eval: the times at which path / time profile are
     to be evaluated (default: the frame's own axis; cadence injection passes shifted times).
@@ -418,6 +418,7 @@ def reference(stg, ax, sig, opts, ts_eval=None, cache=None):
     """
     if cache is None:
         cache = {}
+    axf = ax if ax_fn is None else ax_fn      # the axes the callables handed to the library were built from
     ts = ax.ts if ts_eval is None else np.asarray(ts_eval, dtype=float)
     T, N = ax.T, ax.N
     smear = bool(opts.get('doppler_smearing'))
@@ -436,9 +437,9 @@ def reference(stg, ax, sig, opts, ts_eval=None, cache=None):
     else:
         fn = cache.get('t_fn')
         if fn is None:
-            fn = t_callable(ax, t)
+            fn = t_callable(axf, t)
             if fn is None:      # randomised family: same-seed twin, called once like the frame does
-                fn = stg_t(stg, ax, t)
+                fn = stg_t(stg, axf, t)
             cache['t_fn'] = fn
         if opts.get('integrate_t_profile'):
             g = subgrid(ts, ax.dt, n_t)
@@ -459,7 +460,7 @@ def reference(stg, ax, sig, opts, ts_eval=None, cache=None):
     else:
         fn = cache.get('path_fn')
         if fn is None:
-            fn = cache['path_fn'] = path_callable(ax, p)
+            fn = cache['path_fn'] = path_callable(axf, p)
         tt = ts_ext if smear else ts
         if opts.get('integrate_path'):
             g = subgrid(tt, ax.dt, n_t)
@@ -499,7 +500,10 @@ def reference(stg, ax, sig, opts, ts_eval=None, cache=None):
         for e in edges:
             near |= np.abs(d - e) < eps
         excl = near.any(axis=(2, 3))
-    return exp, tolerance(ax, sig), excl
+    # scale with the magnitude actually reached (time-growing custom profiles at unix-scale times exceed the nominal bound)
+    amp = amplitude_bound(ax, sig)
+    tol = tolerance(ax, sig) * np.maximum(1.0, np.abs(exp) / amp)
+    return exp, tol, excl
 
 
 def tolerance(ax, sig):
